@@ -12,8 +12,9 @@ import vlib
 from checks import metadata_common as mc
 
 THEOREMS = ["Props_C20.C20_import", "Props_C20.C20_ranges", "Props_C20.C20_render_matches", "Props_C20.C20_import_rendered",
-            "Props_C20.C20_export_import", "Props_C20.C20_offset_from_str", "Props_C20.C20_nonvacuous"]
-FILES = ["Bytes.v", "Bytes_proofs.v", "Blocks.v", "Cue.v", "Accessors.v", "CueRender.v", "Blocks_proofs.v", "Cue_proofs.v", "Cue_proofs2.v", "Props_C20.v", "Pins.v"]
+            "Props_C20.C20_export_import", "Props_C20.C20_offset_from_str", "Props_C20.C20_nonvacuous",
+            "Props_C20.C20_imported_block_typed", "Props_C20.C20_imported_text_round_trips"]
+FILES = ["Bytes.v", "Bytes_proofs.v", "Blocks.v", "Cue.v", "Accessors.v", "CueRender.v", "Blocks_proofs.v", "Cue_proofs.v", "Cue_proofs2.v", "Blocks_proofs2.v", "Blocks_level.v", "BlockList_proofs.v", "CueTyped.v", "Props_C20.v", "Pins.v"]
 
 
 def run(chk):
